@@ -1358,6 +1358,23 @@ func RunC18(col *core.Collector, tier, variant string, seed uint64, shard, nshar
 				col.Violation(core.Violation{Property: "C18", Signature: "policy-add:" + sigText(pv), Detail: pv, Replay: path})
 			}
 		}
+		if i%4 == 0 {
+			pv, st, passes, multi := runPolicyPasses(cs ^ 0x7777)
+			col.Count("passes.followed", passes)
+			col.Count("passes.with_2_or_more_comparisons", multi)
+			col.Count("passes.comparisons", st.comparisons)
+			col.Count("passes.arrival_admitted", st.admitted)
+			col.Count("passes.arrival_rejected", st.rejected)
+			col.Count("passes.random_admissions", st.randomAdmissions)
+			col.Count("passes.forced_evictions", st.forced)
+			if st.diverged {
+				col.Count("passes.cases_with_a_structurally_different_pass", 1)
+			}
+			if pv != "" {
+				path := writeReplay(replayDir, fmt.Sprintf("C18-pass-%x.json", cs), map[string]any{"engine": "policy-pass", "case_seed": cs ^ 0x7777, "violation": pv})
+				col.Violation(core.Violation{Property: "C18", Signature: "pass:" + sigText(pv), Detail: pv, Replay: path})
+			}
+		}
 		av, checked, used := runAdmit(cs ^ 0x5555)
 		col.Count("admit.checked", checked)
 		col.Count("admit.random_consulted", used)
